@@ -68,6 +68,13 @@ codec_std = dict(
     bounded=dict(bound='containers of every size 0..4 (thorough: 0..40, beyond the inline capacity of the size cache and its first two heap growths) over fixed element families; 7x7 string pairs', form='b'),
     dropped=[], trusted=['g++ / libstdc++ / fmt execute the real codecs; fmt formats both sides'], min_obligations=1, timeout=1200)
 UNITS += [codec_std]
+args_e2e = dict(
+    name='FE.args_e2e', primary='C04', props={'C04'}, kind='L', funcs=[], enforce=None,
+    desc='C04 end to end through the real frontend (LOG_INFO -> Codec<T> -> queue) and the real backend (decode_and_store_arg -> DynamicFormatArgStore -> vformat -> sanitize_non_printable_chars): the message a sink receives == the default sanitisation of fmt::format(template, args...) at the call site, for argument lists over char / arithmetic / bool / pointer / C string / char array / std::string / string_view / vector / array / pair / optional / tuple with values that include non-printable bytes; arguments overwritten or destroyed before the backend pass (the type-level decisions - which decoded types are string related, which are copied into the store - are outside every per-function contract)',
+    native=dict(cpp='args_e2e.cpp', file='include/quill/core/DynamicFormatArgStore.h', function='LoggerImpl::log_statement, Codec<T>::{compute_encoded_size,encode,decode_and_store_arg}, DynamicFormatArgStore::push_back, BackendWorker::{_populate_formatted_log_message,sanitize_non_printable_chars}', defs_quick=['NVAL=6'], defs_thorough=['NVAL=10']),
+    bounded=dict(bound='6 (thorough: 10) byte values x 20 argument lists + 6 fixed lists', form='b'),
+    dropped=[], trusted=['g++ / libstdc++ / fmt execute the real frontend and backend; fmt formats the reference text'], min_obligations=1, timeout=600)
+UNITS += [args_e2e]
 rotating_restart = dict(
     name='RS.restart_files', primary='C14', props={'C14'}, kind='L', funcs=[], enforce=None,
     desc='the real RotatingFileSink across a restart (mode w, then mode a) for the naming schemes Index / Date / DateAndTime on real files, with unrelated files and the files of a second sink (r.debug.log) in the directory: whole statements in order as the naming scheme orders the files, nothing clobbered by the restart, foreign files untouched (_clean_and_recover_files, _rotate_files, _get_filename: directory scan and string surgery out of CBMC reach)',
